@@ -249,10 +249,13 @@ void start_searching(Uci* uci)
         Move move = uci->polyglot_sample_random_move 
             ? uci->polyglot.get_random_move(key, uci->position)
             : uci->polyglot.get_best_move(key, uci->position);
-        sync_cout << "bestmove " << uci->position.uci(move) << sync_endl;
+        if (move != NO_MOVE)
+        {
+            sync_cout << "bestmove " << uci->position.uci(move) << sync_endl;
+            return;
+        }
     }
-    else
-        uci->search->go();
+    uci->search->go();
 }
 
 bool Uci::go_command(std::istringstream& istream)
